@@ -4,6 +4,7 @@ Every payload the codecs hand to `zlib_compress` is non-empty (at least 25 bytes
 reached through a codec.  `writeInto size out = ok b` means `b` has exactly `size` bytes.
 -/
 import EngineModel.Impl.V1
+import Proofs.CheckedArith
 
 namespace EngineModel.Impl
 open EngineModel
@@ -38,7 +39,8 @@ theorem V1.encodeOvw_len {v b} (h : V1.encodeOvw v = .ok b) : 27 ≤ b.length :=
 theorem V1.encodeHires_len {v b} (h : V1.encodeHires v = .ok b) : 30 ≤ b.length := by
   have := V2.writeInto_length h; omega
 theorem V1.encodeBeat_len {v b} (h : V1.encodeBeat v = .ok b) : 33 ≤ b.length := by
-  unfold V1.encodeBeat at h
+  rw [ArithZ.encodeBeat_eq_Z] at h
+  unfold ArithZ.encodeBeatZ at h
   split at h
   · simp at h
   · have := V2.writeInto_length h; omega
